@@ -55,6 +55,21 @@ class Prop(Check):
         "Proc.C13_phase_models",
         "Proc.C13_models_own_metamodel",
         "Proc.C13_finish_single",
+        "Proc.C13_calls_iff",
+        "Proc.C13_calls_nodup",
+        "Proc.C13_called_iff",
+        "Proc.C13_abstract_once_exactly",
+        "Proc.C13_abstract_only",
+        "Proc.C13_no_call_twice",
+        "Proc.C13_child_before_container",
+        "Proc.C13_child_before_container_idx",
+        "Proc.C13_child_before_container_calls",
+        "Proc.C13_replace_keep",
+        "Proc.C13_linked_before_processing",
+        "Proc.C13_resolved_precede_processing",
+        "Proc.C13_unlinked_no_processing",
+        "Proc.C13_root_kept",
+        "Proc.C13_root_calls",
     ]
     DRIVER = "Drivers/Proc.lean"
     QUICK_CASES = 440
@@ -72,7 +87,9 @@ class Prop(Check):
             "abstract-typed attribute whose rule has a processor)")
     MODELLED = ("hand-modelled: model.py call_obj_processors (Proc.walk/walkFields/walkSlot/walkItems/objStep) and the "
                 "load tail model.py:971-987 (Proc.finish, Proc.finishMM: every model walked with its own metamodel's "
-                "registrations); tie X: op objproc — model state before the first processor "
+                "registrations) behind the resolution loop of parse_tree_to_objgraph (Proc.loadEvents over LinkLoc.run: "
+                "the references of every file with their postponement schedule -> the resolutions, or no processing "
+                "at all); tie X: op objproc — model state before the first processor "
                 "call + registration table per model + return-value script -> event sequence, per-call snapshots, final "
                 "model; the history of a load is not an input of the model (the walk is a function of the model and the "
                 "registrations of its metamodel): the implementation is run through generated histories and compared "
@@ -377,6 +394,13 @@ class Prop(Check):
             script.append([classes.index(rule), uid, ret])
         order = self.model_order(obs, new)
         nres = sum(1 for e in obs["events"] if e[0] == "resolve")
+        # the cross-references of every file the load builds, in text order, with their postponement counts:
+        # the resolutions are computed by the model of the resolution loop (Proc.loadEvents), not handed in
+        rend = pg.render(case, case.get("layout", 0))
+        link = []
+        for k in order:
+            refs = sorted((off, i, w) for i, (fk, off, _s, _a, _t, w) in enumerate(rend.refs) if fk == k)
+            link.append([[i, off, w] for off, i, w in refs])
         return {
             "op": "objproc",
             "kinds": kinds,
@@ -385,6 +409,7 @@ class Prop(Check):
             "user": [classes.index(u) for u in schema["user"] if u in classes],
             "script": script,
             "resolves": list(range(nres)),
+            "link": link,
             "models": [obs["pre"][str(k)] for k in order],
         }
 
@@ -448,6 +473,13 @@ class Prop(Check):
                 got_per.setdefault(uid_file.get(e[1]), []).append(e[1])
         if got_per != per_model:
             return f"initialisation order per model: implementation {got_per}, model {per_model}"
+        # the references resolved by the loop: the same ones, each once (order among them is not the property's)
+        rend = pg.render(case, case.get("layout", 0))
+        ref_id = {(fk, off): i for i, (fk, off, _s, _a, _t, _w) in enumerate(rend.refs)}
+        got_r = sorted(ref_id.get((e[1], e[2]), -1) for e in obs["events"] if e[0] == "resolve")
+        want_r = sorted(e[1] for e in out["events"] if e[0] == "r")
+        if got_r != want_r:
+            return f"resolved references: implementation {got_r}, model {want_r}"
         # phase shape: resolve* init* proc* (match-processor events are construction-time)
         kinds_impl = [e[0] for e in obs["events"] if e[0] not in ("match", "alien")]
         kinds_model = [{"r": "resolve", "i": "init", "p": "proc"}[e[0]] for e in out["events"]]
